@@ -22,7 +22,7 @@ From Coq Require Export PeanoNat.
 Local Open Scope nat_scope.
 Local Open Scope res_scope.
 
-Definition EXN_NULL : N := 90.      (* null RCP dereference (SIGSEGV) *)
+Definition EXN_NULL : N := 90.      (* null RCP dereference (SIGSEGV); not produced any more *)
 Definition EXN_PRECOND : N := 97.   (* factory called outside the modelled fragment *)
 
 Definition oob {A} (i len : nat) : res A := ErrOOB (N.of_nat i) (N.of_nat len).
@@ -175,22 +175,17 @@ Fixpoint size (e : mexpr) : osize :=
   end.
 
 (* ---------------------------------------------------------------- matrix_add.cpp *)
-(* body of the inner loop of check_matching_sizes *)
-Definition size_pair_check (fs ss : osize) : res unit :=
-  match fst fs with
-  | None => Ok tt
-  | Some r1 =>
-      match fst ss with
-      | None => Ok tt
-      | Some r2 =>
-          if is_false (dim_diff_zero r1 r2) then ErrExn EXN_DOMAIN
-          else match snd fs, snd ss with
-               | Some c1, Some c2 =>
-                   if is_false (dim_diff_zero c1 c2) then ErrExn EXN_DOMAIN else Ok tt
-               | _, _ => ErrExn EXN_NULL       (* sub() on a null RCP *)
-               end
-      end
+(* body of the inner loop of check_matching_sizes: rows and columns are compared independently,
+   each only when both operands know it *)
+Definition dim_pair_check (a b : option dim) : res unit :=
+  match a, b with
+  | Some x, Some y => if is_false (dim_diff_zero x y) then ErrExn EXN_DOMAIN else Ok tt
+  | _, _ => Ok tt
   end.
+
+Definition size_pair_check (fs ss : osize) : res unit :=
+  do _ <- dim_pair_check (fst fs) (fst ss);
+  dim_pair_check (snd fs) (snd ss).
 
 Definition forM_ {A} (f : A -> res unit) : list A -> res unit :=
   fix go (l : list A) : res unit :=
@@ -374,6 +369,18 @@ Definition first_zero_arg (args : list marg) : option mexpr :=
   find (fun e => is_MZero e)
        (flat_map (fun a => match a with AMat e => [e] | AScal _ => [] end) args).
 
+(* `return zero_matrix(nrows, ncols)` with the rows of the first and the columns of the last
+   expanded factor when both are known, else the ZeroMatrix argument itself *)
+Definition zero_result (expanded : list mexpr) (z : mexpr) : mexpr :=
+  match map size expanded with
+  | [] => z                                   (* not reached: the size check fails first *)
+  | s :: r =>
+      match fst s, snd (last r s) with
+      | Some nr, Some nc => MZero nr nc
+      | _, _ => z
+      end
+  end.
+
 Definition matrix_mul (args : list marg) : res mexpr :=
   match args with
   | [] => ErrExn EXN_DOMAIN
@@ -383,14 +390,17 @@ Definition matrix_mul (args : list marg) : res mexpr :=
       let '(scalar, expanded) := expand_mul args e1 [] in
       do _ <- check_matching_mul_sizes expanded;
       match first_zero_arg args with
-      | Some z => Ok z
+      | Some z => Ok (zero_result expanded z)
       | None =>
           do st <- foldM mul_step expanded {| m_keep := []; m_diag := None; m_dense := None; m_ident := None |};
-          let keep := flush st in
-          match keep, m_ident st with
-          | [x], _ => if e_eqb scalar e1 then Ok x else Ok (MMul scalar keep)
-          | [], Some n => Ok (MIdent n)
-          | _, _ => Ok (MMul scalar keep)
+          (* only identity matrices: the product is scalar * I *)
+          let keep := match flush st, m_ident st with
+                      | [], Some n => [MIdent n]
+                      | k, _ => k
+                      end in
+          match keep with
+          | [x] => if e_eqb scalar e1 then Ok x else Ok (MMul scalar keep)
+          | _ => Ok (MMul scalar keep)
           end
       end
   end.
@@ -601,6 +611,18 @@ Definition had_rule (p : mexpr -> res tri) : list mexpr -> res tri :=
     | x :: r => do t <- p x; if is_true t then Ok TT else go r
     end.
 
+(* HadamardProduct in is_symmetric: all factors symmetric => symmetric, otherwise unknown *)
+Definition sym_had_rule (p : mexpr -> res tri) (l : list mexpr) : res tri :=
+  match l with
+  | [] => Ok TI                               (* member left as it was: excluded by wf *)
+  | _ =>
+      (fix go (l : list mexpr) : res tri :=
+         match l with
+         | [] => Ok TT
+         | x :: r => do t <- p x; if is_true t then go r else Ok TI
+         end) l
+  end.
+
 (* ---------------------------------------------------------------- is_diagonal.cpp *)
 Definition pairs (m n : nat) : list (nat * nat) := list_prod (seq 0 m) (seq 0 n).
 
@@ -641,7 +663,7 @@ Fixpoint is_symmetric (e : mexpr) : res tri :=
   | MDiag _ => Ok TT
   | MDense m n v => dense_is_symmetric m n v
   | MAdd ts => add_rule is_symmetric ts false
-  | MHad fs => add_rule is_symmetric fs false
+  | MHad fs => sym_had_rule is_symmetric fs
   | _ => Ok TI
   end.
 
@@ -689,12 +711,11 @@ Definition diag_is_toeplitz (d : list ent) : tri :=
   | first :: rest => diag_all (fun x => tz (esub first x)) rest TT
   end.
 
-(* the diagonal starts visited by the loops over w and k, in order.
-   The bounds `w <= ncols` / `w <= nrows` are the ones of the source. *)
+(* the diagonal starts visited by the loops over w and k, in order *)
 Definition toeplitz_starts (m n : nat) : list (nat * nat) :=
   flat_map (fun w =>
-      (if w <=? n then [(0, w)] else []) ++
-      (if (w <=? m) && negb (w =? 0) then [(w, 0)] else []))
+      (if w <? n then [(0, w)] else []) ++
+      (if (w <? m) && negb (w =? 0) then [(w, 0)] else []))
     (seq 0 (Nat.max m n - 1)).
 
 Definition dense_is_toeplitz (m n : nat) (v : list ent) : res tri :=
